@@ -18,20 +18,21 @@ MANIFEST = dict(
          "breaks the obligation); for every method and argument vector of region WF the single request carries the directive's verb, the path with "
          "every placeholder replaced by its alias-resolved argument, the query holding exactly the non-path scalars, struct fields and map entries "
          "under alias-or-name with nil pointers omitted, the struct argument as body for POST/PUT/PATCH, and the caller's context (C06_request, "
-         "C06_query, C06_placeholders, C06_body, C06_ctx, C06_one_request); duplicate aliases are rejected (C06_dup_alias_rejected). Seven finding "
-         "regions with witness theorems. Tied to the code (a) by generating clients with the rebuilt `shoot rest` from random interfaces, compiling "
+         "C06_query, C06_placeholders — for arbitrary argument texts —, C06_body, C06_ctx, C06_one_request); duplicate aliases are rejected "
+         "(C06_dup_alias_rejected). Two finding regions with witness theorems (both pinned by the rest golden); seven former ones were repaired "
+         "in /repo and are stated as *_fixed / asserted as WF. Tied to the code (a) by generating clients with the rebuilt `shoot rest` from random interfaces, compiling "
          "them and recording the requests they send through a recording RoundTripper (nil pointers, URL-unsafe strings; url.JoinPath / "
          "Values.Encode / Header.Add / json.Marshal evaluated by the real functions), (b) by an in-process differential of the recognisers against "
          "the real regexps (verif hook internal/restclient/verif_export.go) on thousands of random and rendered texts.",
     note="Lean kernel + standard axioms. Proved at method level (directives parsed to their meaning -> request); the interface-level glue "
-         "(method collection, compile failures) is tied by the correspondence. Known findings: F_ptrDict, F_twoDicts, F_qualScalar, "
-         "F_structElsewhere, F_headerValue, F_nilStructDeref, F_pathArgBrace (F_mixedCtx, F_bodyNoStruct and the duplicate-alias order dependence "
-         "were repaired in /repo and are asserted as WF / Rejected). Repair patches: notes/proposed/REST_REPAIRS.md.",
+         "(method collection, compile failures) is tied by the correspondence. Known findings: F_ptrDict, F_nilStructDeref (repairs would change "
+         "the committed golden: notes/proposed/REST_REPAIRS.md). Repaired in /repo and asserted as WF / Rejected: F_mixedCtx, F_bodyNoStruct, duplicate "
+         "aliases, F_twoDicts, F_qualScalar, F_structElsewhere, F_headerValue, F_pathArgBrace.",
     technique="Lean 4 proof (induction over parameter lists, token lists, Go-map association lists, directive texts) + differential model/implementation "
               "correspondence on generated, compiled and executed clients + in-process regexp differential + regenerated facts tables",
     design="5/C06")
 
-FINDING_REGIONS = ["F_ptrDict", "F_twoDicts", "F_qualScalar", "F_nilStructDeref", "F_pathArgBrace"]
+FINDING_REGIONS = ["F_ptrDict", "F_nilStructDeref"]
 
 
 def make_case(cid, iface, calls):
@@ -75,11 +76,11 @@ def shaped(ctx, g):
         if p["kind"] == "dict":
             p["ptr"] = True
     out.append(("ptrdict", i, calls_for(g, i, 1)))
-    # F_twoDicts
+    # two map parameters (was F_twoDicts; repaired by 9050c53: WF)
     i = g.iface(name="Client", nmethods=1, ctx=True, verb="DELETE", dict=True)
     i["methods"][0]["params"].append({"name": "more", "kind": "dict", "type": "map[string]string", "ptr": False, "role": "dict"})
     out.append(("twodicts", i, calls_for(g, i, 3)))
-    # F_qualScalar
+    # qualified scalar (was F_qualScalar; repaired by d8a8443: WF)
     i = g.iface(name="Client", nmethods=1, ctx=True, verb="GET", struct=False)
     i["methods"][0]["params"].append({"name": "wait", "kind": "qual", "type": "time.Duration", "ptr": False, "role": "query"})
     out.append(("qualscalar", i, calls_for(g, i, 2)))
@@ -90,7 +91,7 @@ def shaped(ctx, g):
             if p["kind"] == "struct":
                 p["ptr"] = True
         out.append(("nilstruct" + verb.lower(), i, calls_for(g, i, 2, nil_struct=1.0) + calls_for(g, i, 1)))
-    # F_pathArgBrace (deterministic witness + random brace arguments)
+    # argument texts with braces (was F_pathArgBrace; repaired by 0b978c0: WF)
     i = g.iface(name="Client", nmethods=1, ctx=True, nph=2)
     m = i["methods"][0]
     m.update({"verb": "GET", "verbtext": "Get", "path": "/{a}/x/{b}", "quoted": True, "alias": [], "tail": "",
@@ -115,7 +116,7 @@ def shaped(ctx, g):
         if p["kind"] == "struct":
             p["ptr"] = True
     out.append(("nilbody", i, calls_for(g, i, 2, nil_struct=1.0)))
-    # F_structElsewhere: the struct type is declared in another file of the package (types.go)
+    # the struct type is declared in another file of the package, types.go (was F_structElsewhere; repaired by 05e7f66: WF)
     for vi, verb in enumerate(("GET", "POST", "DELETE")):
         i = g.iface(name="Client", nmethods=1, ctx=True, verb=verb, struct=True, where="other")
         if vi == 2:
@@ -123,7 +124,7 @@ def shaped(ctx, g):
                 if p["kind"] == "struct":
                     p["ptr"] = True
         out.append(("elsewhere%d" % vi, i, calls_for(g, i, 3)))
-    # F_headerValue: a header value that starts with punctuation
+    # a header value that starts with punctuation (was F_headerValue; repaired by 98e0bbb: WF)
     i = g.iface(name="Client", nmethods=2, ctx=True)
     i["headers"], i["hbreaks"] = [("Accept", "*/*"), ("X-Env", "test")], []
     out.append(("hdrpunct", i, calls_for(g, i, 1)))
@@ -221,7 +222,7 @@ def perturb(rng, i):
             make_dup_alias(rng, m)
         elif what == "elsewhere":
             for p in m["params"]:
-                if p["kind"] == "struct" and p["struct"].get("where") == "same" and not any(f.get("ptr") for f in p["struct"]["fields"]):
+                if p["kind"] == "struct" and p["struct"].get("where") == "same":
                     p["struct"]["where"] = "other"
         elif what == "hdrpunct":
             i["headers"], i["hbreaks"] = [("Accept", "*/*")] + [h for h in (i.get("headers") or []) if h[0] != "Accept"], []
